@@ -1,4 +1,5 @@
 import Poly.Proofs.GovConsumed
+import Poly.Generated.GovKeys
 /-!
 # C33 — Approved governance requests are consumed
 
@@ -61,6 +62,14 @@ theorem between_two_applications_a_fresh_request (H : Bytes → Bytes) (pre mid 
   intro hmid
   have := no_second_application H (run H {} pre) op op' q mid (applyCanon_invariant H pre) ha h hmid ha'
   rw [this] at h'; cases h'
+
+/-- On the source itself (tables regenerated from /repo by extract/govkeys on every run): every approval method deletes
+the key prefix under which the helper of its request method stores the request, and the approved side-chain quit also
+drops the chain's pending update request. -/
+theorem source_deletes_the_stored_request_key :
+    (∀ p ∈ requestStoredBy, ∀ k ∈ prefixesOf Poly.Generated.GovKeys.puts p.2, k ∈ prefixesOf Poly.Generated.GovKeys.deletes p.1) ∧
+    (∀ p ∈ requestStoredBy, prefixesOf Poly.Generated.GovKeys.puts p.2 ≠ []) ∧
+    "updateSideChainRequest" ∈ prefixesOf Poly.Generated.GovKeys.deletes "ApproveQuitSideChain" := by decide
 
 /-- Non-vacuity (a test on literals): one validator registers, approves and quits chain id 7; the quit approval is
 applied, its request was pending before and is consumed afterwards. -/
